@@ -99,6 +99,13 @@ def run(chk):
             meta.append(dict(tag="sort_faces", kind=kind, V=Vr, F=F, p=ph, i=len(cases), Fin=Fs))
             cases.append(C.encode_case("structure", qs=C.flat(Vr), idx=F))
         # ---- merge_faces on a triangulated convex surface ----
+        # merge_faces merges neighbours whose plane equations agree within its documented np.allclose tolerance (rtol 1e-5 of the plane
+        # offset, which grows with the distance from the origin): hull facets that are DISTINCT but coplanar to within ten times that
+        # tolerance are outside what the property can demand of it ("hull facets" and "faces merged within tolerance" then differ).
+        eqs0 = np.asarray(p0.equations, float)
+        if any(np.allclose(eqs0[i], eqs0[int(j)], atol=1e-7, rtol=1e-4) for i in range(len(eqs0)) for j in p0.neighbors[i]):
+            chk.count("merge_faces:near-coplanar-facets(not judged)")
+            continue
         tris = []
         for f in F0:
             for k in range(1, len(f) - 1):
